@@ -20,18 +20,26 @@ def gen_T12():
     need(len(assigns) == 2, 'reply: expected two assignments to allowedLength, got %d' % len(assigns))
     base = [a for a in assigns if isinstance(a.value, ast.BinOp)]
     need(len(base) == 1, 'reply: expected one arithmetic allowedLength expression')
-    want = "512 - len(':') - len(self.irc.prefix) - len(' PRIVMSG ') - len(target) - len(' :') - len('\\r\\n')"
+    want = "512 - len(':') - byteLength(self.irc.prefix) - len(' PRIVMSG ') - byteLength(recipient) - len(' :') - len('\\r\\n')"
     got = ast.unparse(base[0].value)
     need(got == want, 'reply: allowedLength expression changed: ' + got)
     line_max = 512
+    # byteLength: bytes under Python 3; recipient: the nick when the command came in a query
+    ifs = [n for n in ast.walk(reply) if isinstance(n, ast.If)]
+    bl = [n for n in ifs if ast.unparse(n.test) == 'minisix.PY3' and len(n.body) == 1 and len(n.orelse) == 1
+          and ast.unparse(n.body[0]) == 'byteLength = lambda x: len(x.encode())' and ast.unparse(n.orelse[0]) == 'byteLength = len']
+    need(len(bl) == 1, 'reply: definition of byteLength changed')
+    rc = [n for n in ifs if ast.unparse(n.test) == 'self.private or self.to or msg.channel' and len(n.body) == 1
+          and len(n.orelse) == 1 and ast.unparse(n.body[0]) == 'recipient = target' and ast.unparse(n.orelse[0]) == 'recipient = msg.nick']
+    need(len(rc) == 1, 'reply: choice of the recipient changed')
     fixed = len(':') + len(' PRIVMSG ') + len(' :') + len('\r\n')
     augs = [n for n in ast.walk(reply) if isinstance(n, ast.AugAssign) and isinstance(n.target, ast.Name)
             and n.target.id == 'allowedLength']
     need(len(augs) == 2 and all(isinstance(a.op, ast.Sub) for a in augs), 'reply: expected two `allowedLength -=`')
     a_nick, a_more = sorted(augs, key=lambda a: a.lineno)
-    need(ast.unparse(a_nick.value) == "len(msg.nick) + len(': ')", 'reply: nick reserve changed: ' + ast.unparse(a_nick.value))
-    need(ast.unparse(a_more.value) == "len(_('(XX more messages)')) + 1", 'reply: more reserve changed: ' + ast.unparse(a_more.value))
-    reserve = len('(XX more messages)') + 1
+    need(ast.unparse(a_nick.value) == "byteLength(msg.nick) + len(': ')", 'reply: nick reserve changed: ' + ast.unparse(a_nick.value))
+    need(ast.unparse(a_more.value) == "len(_('(XX more messages)')) + 3", 'reply: more reserve changed: ' + ast.unparse(a_more.value))
+    reserve = len('(XX more messages)') + 3
     strs = _consts(reply, str)
     need('more message' in strs and 'more messages' in strs and '(%i %s)' in strs and '%s %s' in strs,
          'reply: suffix strings changed')
@@ -54,16 +62,28 @@ def gen_T12():
     size = find_def(i, 'size', 'FormatContext')
     ints = sorted(_consts(size, int))
     need(ints == [0, 1, 3, 6], 'FormatContext.size constants changed: %r' % ints)
+    src_size = ast.unparse(size)
+    need('prefix_size = self.bold + self.reverse + self.underline + (self.fg is not None) + (self.bg is not None)' in src_size
+         and 'if self.bg is not None:\n        prefix_size += 6' in src_size
+         and 'elif self.fg is not None:\n        prefix_size += 3' in src_size, 'FormatContext.size shape changed')
+    end = find_def(i, 'end', 'FormatContext')
+    need('if self.bold or self.reverse or self.fg or self.bg or self.underline:' in ast.unparse(end), 'FormatContext.end changed')
     gi = find_def(i, 'getInt', 'FormatParser')
     cmp_ = [n for n in ast.walk(gi) if isinstance(n, ast.Compare)]
-    need(len(cmp_) == 1 and ast.unparse(cmp_[0]) == 'j >= 16', 'getInt bound changed')
+    need('j >= 16' in [ast.unparse(c) for c in cmp_], 'getInt bound changed')
+    wh = [n for n in ast.walk(gi) if isinstance(n, ast.While)]
+    import string as _string
+    need(len(wh) == 1 and ast.unparse(wh[0].test) == 'c and c in string.digits' and _string.digits == '0123456789',
+         'getInt: digit test changed: ' + (ast.unparse(wh[0].test) if wh else '?'))
     il = tree('src/irclib.py')
     from gen_tables import module_assign
     mls = module_assign(il, 'MAX_LINE_SIZE')
     need(isinstance(mls, ast.Constant) and isinstance(mls.value, int), 'irclib.MAX_LINE_SIZE is not an int literal')
     tr = find_def(il, '_truncateMsg', 'Irc')
-    need('msg_rest_str[:MAX_LINE_SIZE - 2]' in ast.unparse(tr) and 'len(msg_rest_str) > MAX_LINE_SIZE' in ast.unparse(tr),
-         'Irc._truncateMsg changed')
+    # (C06.F19 repair) measured and cut in UTF-8 bytes; 'ignore' drops the character the cut falls in
+    utr = ast.unparse(tr)
+    need("msg_rest_bytes = msg_rest_str.encode('utf-8')" in utr and 'len(msg_rest_bytes) > MAX_LINE_SIZE' in utr
+         and "msg_rest_bytes[:MAX_LINE_SIZE - 2].decode('utf-8', 'ignore')" in utr, 'Irc._truncateMsg changed')
     # ---- CPython: characters with str.isdigit(), and int() of them (99 = ValueError) ----
     digs = []
     for c in range(0x110000):
@@ -79,7 +99,7 @@ def gen_T12():
     out += 'Definition LINE_MAX : N := %d.\n' % line_max
     out += 'Definition FIXED_OVERHEAD : N := %d.  (* len of ":" + " PRIVMSG " + " :" + CRLF *)\n' % fixed
     out += 'Definition NICK_SEP : list N := %s.\n' % cstr(': ')
-    out += 'Definition MORE_RESERVE : N := %d.  (* len("(XX more messages)") + 1 *)\n' % reserve
+    out += 'Definition MORE_RESERVE : N := %d.  (* len("(XX more messages)") + 3 *)\n' % reserve
     out += 'Definition MORE_ONE : list N := %s.\n' % cstr('more message')
     out += 'Definition MORE_MANY : list N := %s.\n' % cstr('more messages')
     out += 'Definition IRCLIB_MAX_LINE_SIZE : N := %d.\n' % mls.value
